@@ -7,7 +7,9 @@ open PwVerif PwVerif.FuncWrap PwVerif.Proto
     cfg <recast 0|1> <cachedPanel 0|1>
     def fn <validate 0|1> <declared: - | l1,l2,…> <ret>*
                                  ret = t<i> (free term i of all parameters) | p<j> (parameter j) |
+                                 I<i>:<k> (free term i if parameter k `is` its default object, else term i+50) |
                                  T:<ret>,<ret>,… (ONE returned object that is a tuple): what the body computes
+    values: ND | atom | @<id>.<kind> (an object with identity <id>) | tag(v,…) | tag(k=v,…)
     param <name> <default|-> <annotation: - | None | hint>     (appends a parameter)
     retstmt bare | retstmt single <text…> | retstmt tuple      (appends a `return` statement as ast sees it)
     retelt <text…>                                             (appends an element text to the last tuple)
@@ -24,10 +26,17 @@ open PwVerif PwVerif.FuncWrap PwVerif.Proto
 partial def showVal : Val → String
   | .nd => "ND"
   | .atom s => s
+  | .obj i k => "@" ++ toString i ++ "." ++ k
   | .node tag [] vs => tag ++ "(" ++ ",".intercalate (vs.map showVal) ++ ")"
   | .node tag ks vs => tag ++ "(" ++ ",".intercalate ((ks.zip vs).map fun kv => kv.1 ++ "=" ++ showVal kv.2) ++ ")"
 
 def isTok (c : Char) : Bool := !(c == '(' || c == ')' || c == ',' || c == '=')
+
+/-- `@<id>.<kind>`: an object with an identity; anything else starting with `@` is malformed -/
+def parseObj (s : String) : Option Val :=
+  match (s.drop 1).toString.splitOn "." with
+  | [i, k] => if k.isEmpty then none else i.toNat?.map fun i => Val.obj i k
+  | _ => none
 
 /-- value grammar: ND | atom | tag(v,…) | tag(k=v,…) -/
 partial def parseVal (cs : List Char) : Option (Val × List Char) :=
@@ -42,7 +51,8 @@ partial def parseVal (cs : List Char) : Option (Val × List Char) :=
       | _ => parseItems tag [] [] r
     | _ =>
       let s := String.ofList tok
-      some (if s == "ND" then .nd else .atom s, rest)
+      if s.startsWith "@" then (parseObj s).map fun v => (v, rest)
+      else some (if s == "ND" then .nd else .atom s, rest)
 where
   parseItems (tag : String) (ks : List String) (vs : List Val) (cs : List Char) : Option (Val × List Char) :=
     -- an item is  key=value  or  value
@@ -70,27 +80,38 @@ def parseValS (s : String) : Option Val :=
 inductive Ret where
   | term (i : Nat)
   | param (j : Nat)
+  | isdef (i k : Nat)
   | tup (rs : List Ret)
 
 partial def parseRet (s : String) : Option Ret :=
   if s.startsWith "T:" then
     ((s.drop 2).toString.splitOn ",").mapM parseRet |>.map Ret.tup
+  else if s.startsWith "I" then
+    match (s.drop 1).toString.splitOn ":" with
+    | [i, k] => match i.toNat?, k.toNat? with
+      | some i, some k => some (Ret.isdef i k)
+      | _, _ => none
+    | _ => none
   else if s.startsWith "t" then (s.drop 1).toString.toNat?.map Ret.term
   else if s.startsWith "p" then (s.drop 1).toString.toNat?.map Ret.param
   else none
 
-partial def evalRet (vs : List Val) : Ret → Val
+partial def evalRet (dfl : List (Option Val)) (vs : List Val) : Ret → Val
   | .term i => .node ("app" ++ toString i) [] vs
   | .param j => vs.getD j .nd
-  | .tup rs => Val.tuple (rs.map (evalRet vs))
+  | .isdef i k =>
+    -- `_T(i, …) if <parameter k> is <its default object> else _T(i + 50, …)`
+    if (vs.getD k .nd).sameObj ((dfl.getD k none).getD .nd) then .node ("app" ++ toString i) [] vs
+    else .node ("app" ++ toString (i + 50)) [] vs
+  | .tup rs => Val.tuple (rs.map (evalRet dfl vs))
 
 /-- the function body: no return statement / `return None` ⇒ the atom `None`; one expression ⇒ it;
 several ⇒ a tuple -/
-def body (rets : List Ret) (vs : List Val) : Val :=
+def body (dfl : List (Option Val)) (rets : List Ret) (vs : List Val) : Val :=
   match rets with
   | [] => .atom "None"
-  | [r] => evalRet vs r
-  | rs => Val.tuple (rs.map (evalRet vs))
+  | [r] => evalRet dfl vs r
+  | rs => Val.tuple (rs.map (evalRet dfl vs))
 
 inductive Kind where
   | none
@@ -290,7 +311,7 @@ def step (s : St) (ws : List String) : St × List String :=
     | some n, some (a, k) =>
       let r : Node × Outcome :=
         match s.kind with
-        | .fn _ rets => call (body rets) n a k
+        | .fn fd rets => call (body (fd.params.map (·.dflt)) rets) n a k
         | .xf kd => xfCall kd n a k
         | .unpack => unpackCall n a k
         | .dc => dcCall n a k
